@@ -82,10 +82,20 @@ def raw_case(data: bytes):
     return {"gen": "raw", "b64": base64.b64encode(data).decode("ascii")}
 
 
-def total(data, multiple):
+class _OwnCalendar(Calendar):
+    """an application's subclass as entry point"""
+
+
+def _entries():
+    import icalendar
+    return [Calendar, icalendar.cal.Component, icalendar.Event, icalendar.Todo, icalendar.Journal, icalendar.FreeBusy, icalendar.Timezone, icalendar.Alarm, _OwnCalendar]
+
+
+def total(data, multiple, entry=0):
     """-> None | (stage, exception)"""
     try:
-        res = Calendar.from_ical(data, multiple=multiple)
+        # from_ical is one classmethod reachable through every component class: the input decides what comes back
+        res = _entries()[entry % 9].from_ical(data, multiple=multiple)
     except ValueError:
         return None
     except Exception as e:  # noqa: BLE001
@@ -127,7 +137,7 @@ def judge(case):
         for multiple in (False, True):
             sut.reset(provider)
             t0 = time.process_time()
-            r = total(data, multiple)
+            r = total(data, multiple, (len(data) + (3 if multiple else 0) + (5 if provider == "pytz" else 0)) if case.get("vary_entry", True) else 0)
             if sys.flags.optimize and time.process_time() - t0 > 10:      # no watchdog in the -O child: same 10 CPU-second bound
                 fails.append(Failure("C04.terminates", "takes-more-than-10-cpu-seconds", f"provider={provider}: {time.process_time() - t0:.0f} s input={data[:300]!r}"))
                 return fails
